@@ -783,6 +783,23 @@ def _cg_obligations(ctx, cg, which):
             vs.append((True, "the iteration continues only under <d,Hd> > 0"))
         elif any(dr == "-" for dr, f in fs):
             vs.append((False, f"the iterate is advanced along d under `{_show([f for dr, f in fs if dr == '-'][0])}`: a step along a direction of non-positive curvature"))
+        elif any(dr == "+" for dr, f in fs):
+            # only <d,Hd> >= 0 is known: zero curvature continues.  A definite defect when the step length divides by it.
+            divides = None
+            for m in modes_of(p):
+                sts = [s_ for s_ in cg.step.get(m, []) if s_["path"] is p]
+                a_ = sts[0]["a"] if sts else None
+                if isinstance(a_, Rat) and not a_.d.is_const():
+                    for k_ in curv:
+                        t_ = nrm(a_ * k_)
+                        if t_.d.is_const():
+                            divides = (m, a_)
+            if divides is not None:
+                f0 = [f for dr, f in fs if dr == "+"][0]
+                vs.append((False, f"the iteration continues under `{_show(f0)}` only (zero curvature is not excluded) and the step length {_show(divides[1], 80)} divides by <d,Hd>: "
+                                  f"for a singular model Hessian the step is not finite"))
+            else:
+                vs.append((None, "the continuing path only knows <d,Hd> >= 0 and the step length is not readable as a quotient by <d,Hd>"))
         else:
             vs.append((None, "no path fact about <d,Hd> on the continuing path"))
         for m in modes_of(p):
